@@ -530,6 +530,8 @@ class Emitter:
             name = "::".join(e[1])
             if len(e[1]) == 1 and e[1][0] in self.env:
                 return self.env[e[1][0]]
+            if name == "self" and self.cfg.get("self") and not self.selfmut:
+                return self.cfg["self"]["var"], ("N", self.cfg["self"].get("rust", "Self"))
             if name == "None":
                 return "none", ("O", want[1] if want and want[0] == "O" else None)
             cname = e[1][-1]
@@ -564,6 +566,10 @@ class Emitter:
                 raise Unsupported("struct literal %s" % e[1])
             vals = {}
             for f, x in e[2]:
+                if f not in st["fields"]:
+                    raise Unsupported("struct literal %s: unknown field %s" % (e[1], f))
+                if st["fields"][f] == "SKIP":
+                    continue
                 vals[f] = self.expr(x, pre, st["fields"][f])[0]
             return st["ctor"](vals), ("N", e[1])
         if k == "cast":
@@ -723,6 +729,8 @@ class Emitter:
         if try_key and (try_key in self.cfg.get("calls", {}) or try_key in self.calls):
             return self.call(try_key, args, pre, want, extra_exprs=extra)
         v, ty = self.expr(recv, pre)
+        if name == "as_ref" and not args and ty and ty[0] == "O":
+            return v, ty
         prim = {("count_ones", W): ("(popcount %s)", U32), ("leading_zeros", W): ("(clz %s)", U32),
                 ("trailing_zeros", W): ("(ctz %s)", U32), ("reverse_bits", W): ("(%s).reverse", W)}
         if (name, ty) in prim and not args:
@@ -731,7 +739,7 @@ class Emitter:
         if ty == U and name in ("checked_sub", "checked_add", "saturating_add", "saturating_sub"):
             a, _ = self.expr(args[0], pre, U)
             fn = {"checked_sub": ("(checkedSub %s %s)", ("O", U)), "checked_add": ("(checkedAdd %s %s)", ("O", U)),
-                  "saturating_add": ("(satAdd %s %s)", U), "saturating_sub": ("(%s - %s)", U)}[name]
+                  "saturating_add": ("(BitVector.satAdd %s %s)", U), "saturating_sub": ("(%s - %s)", U)}[name]
             return fn[0] % (v, a), fn[1]
         if ty and ty[0] == "O" and name == "unwrap":
             t = self.fresh()
